@@ -728,8 +728,12 @@ with SqlImpl.impl_store.impl_manager as impl:
     def _neg(x):
         # The negation of a negative literal would be rendered as `--7`, which starts a
         # comment in SQL.
-        if isinstance(x, sqa.BindParameter):
-            return -sqa.sql.elements.Grouping(x)
+        # A constant column of the table is a labelled literal.
+        inner = x
+        while isinstance(inner, sqa.Label):
+            inner = inner.element
+        if isinstance(inner, sqa.BindParameter):
+            return -sqa.sql.elements.Grouping(inner)
         return -x
 
     @impl(ops.pos)
